@@ -402,6 +402,13 @@ func VerifH14() {
 	if cutN := vParam("CUT", 0); cutN > 0 && len(cuts) == 0 && len(rows) >= 1 && clean && nondetBool() {
 		whole := vMsgBytes('d', stream)
 		input = whole[:len(whole)-cutN]
+		if nondetBool() {
+			// ... or the file header has arrived in a CopyData message of its own,
+			// so that the message that is cut starts at a tuple boundary
+			rest := vMsgBytes('d', stream[len(vCopyHeader):])
+			input = vCat(vMsgBytes('d', vCopyHeader), rest[:len(rest)-cutN])
+			vReach("cut-message-starts-at-a-tuple-boundary")
+		}
 		w := vNewWorld(input, 64)
 		cr := NewCopyReader(w.rd, w.wr, cols)
 		br, err := NewBinaryColumnReader(w.ctx, cr)
@@ -674,6 +681,12 @@ func VerifH14q() {
 	surplus := nondetBytes(vChoose(vParam("S", 3) + 1))
 	viaExecute := nondetBool()
 	val := nondetBytes(1)
+	if nondetBool() {
+		// ... or the surplus is shaped like the start of a binary COPY stream of
+		// its own: signature, header, one tuple with a value the client chose
+		surplus = vCat(vCopyHeader, []byte{0, 1, 0, 0, 0, 1}, nondetBytes(1))
+		vReach("surplus-shaped-like-a-copy-stream")
+	}
 	stream := vCat(vCopyHeader, []byte{0, 1, 0, 0, 0, 1}, val, []byte{0xff, 0xff})
 	var rows [][]any
 	var endErr error
